@@ -37,7 +37,7 @@ ASSUMPTIONS = ['leaf masks come from glue itself (fresh objects): this check dec
                'not the meaning of each leaf kind (C08/C09 are input-space properties, not applicable to this technique)',
                'views are tuples of positive-step slices only (C04 covers the view domain)', 'sampling, not proof']
 PROBES = ['operand_reread_after_combine', 'multior_of_existing', 'edit_mode_and', 'edit_mode_or', 'edit_mode_xor', 'edit_mode_andnot',
-          'edit_mode_new', 'two_edit_subsets', 'incompatible_expected', 'view_compare', 'nan_inf_data', 'depth_ge_3', 'copy_compared']
+          'edit_mode_new', 'two_edit_subsets', 'same_state_object_applied_again', 'incompatible_expected', 'view_compare', 'nan_inf_data', 'depth_ge_3', 'copy_compared']
 
 KINDS = ['ineq', 'range', 'mrange', 'roi', 'mask', 'slice', 'elem', 'catroi', 'cat', 'empty']
 WEIGHTS = {'new_group': 4, 'combine': 5, 'invert': 2, 'multior': 2, 'copy': 1.5, 'apply': 5, 'set_edit': 1.5, 'set_state': 1,
@@ -81,7 +81,10 @@ def generate(rng, cfg, guards):
         elif k == 'multior':
             ops.append([k, [r8() for _ in range(rng.randrange(1, 4))]])
         elif k == 'apply':
-            ops.append([k, W.gen_recipe(rng, 1, KINDS), rng.randrange(len(MODES))])
+            ops.append([k, W.gen_recipe(rng, 1, KINDS), rng.randrange(len(MODES)), False])
+            while rng.chance(0.2):
+                # the same selection object applied again (same or another mode), as repeating a gesture does
+                ops.append([k, None, rng.pick([ops[-1][2], ops[-1][2], rng.randrange(len(MODES))]), True])
         elif k == 'set_edit':
             ops.append([k, [r8() for _ in range(rng.randrange(0, 3))]])
         elif k == 'read':
@@ -204,6 +207,7 @@ def execute(case, res):
     w = AlgebraWorld(case['knobs'], res)
     dc = w.dc
     esm = w.session.edit_subset_mode
+    last_applied = [None, None]
 
     def exp_of(g):
         return w.exp.get(id(g))
@@ -265,7 +269,10 @@ def execute(case, res):
             gs = dc.subset_groups
             esm.edit_subset = [gs[i % len(gs)] for i in op[1]] if gs else []
         elif k == 'apply':
-            t = w.resolve(op[1])
+            again = len(op) > 3 and op[3]
+            if again and last_applied[0] is None:
+                continue
+            t = last_applied[1] if again else w.resolve(op[1])
             mode = MODES[op[2] % len(MODES)]
             targets = [g for g in (esm.edit_subset or []) if any(g is x for x in dc.subset_groups)]
             stale = [g for g in (esm.edit_subset or []) if not any(g is x for x in dc.subset_groups)]
@@ -274,7 +281,13 @@ def execute(case, res):
             if len(targets) != len(set(id(g) for g in targets)):
                 continue
             before = len(dc.subset_groups)
-            esm.update(dc, w.build_state(t), override_mode=getattr(E, mode))
+            if again:
+                new_state = last_applied[0]
+                res.probe('same_state_object_applied_again')
+            else:
+                new_state = w.build_state(t)
+                last_applied[:] = [new_state, t]
+            esm.update(dc, new_state, override_mode=getattr(E, mode))
             if not targets or mode == 'NewMode':
                 if len(dc.subset_groups) != before + 1:
                     raise Violation('C01/edit-mode-new-did-not-create-group/%s' % mode, '')
